@@ -75,12 +75,124 @@ class CoopLock:
         return self._owner is self._me()
 
 
+class CoopEvent:
+    """threading.Event for events created by py_ecc code: wait() blocks the *task*"""
+
+    def __init__(self):
+        self._flag = False
+        STATS["created"] += 1
+
+    def is_set(self):
+        return self._flag
+
+    isSet = is_set
+
+    def set(self):
+        self._flag = True
+        sim = SIM
+        if sim is not None:
+            sim.lock_released(self)
+
+    def clear(self):
+        self._flag = False
+
+    def wait(self, timeout=None):
+        while not self._flag:
+            sim = SIM
+            if sim is None or sim.cur is None:
+                raise SimDeadlock("py_ecc event waited for outside a simulated run")
+            STATS["contended"] += 1
+            try:
+                sim.lock_block(sim.cur, self)
+            except SimDeadlock:
+                if timeout is not None:
+                    return self._flag          # nobody can set it any more: the timeout expires
+                raise
+        return True
+
+
+class CoopCondition:
+    """threading.Condition for conditions created by py_ecc code"""
+
+    def __init__(self, lock=None):
+        self._lock = lock if lock is not None else CoopLock(True)
+        self._waiters = []
+        self.acquire = self._lock.acquire
+        self.release = self._lock.release
+        STATS["created"] += 1
+
+    def __enter__(self):
+        return self._lock.__enter__()
+
+    def __exit__(self, *a):
+        return self._lock.__exit__(*a)
+
+    def wait(self, timeout=None):
+        token = CoopEvent()
+        self._waiters.append(token)
+        # give the lock up completely while waiting (also when held re-entrantly)
+        saved = None
+        if isinstance(self._lock, CoopLock):
+            saved = (self._lock._owner, self._lock._count)
+            self._lock._owner, self._lock._count = None, 0
+            if SIM is not None:
+                SIM.lock_released(self._lock)
+        else:
+            self._lock.release()
+        try:
+            ok = token.wait(timeout)
+        finally:
+            if token in self._waiters:
+                self._waiters.remove(token)
+            if saved is not None:
+                self._lock.acquire()
+                self._lock._count = saved[1]
+            else:
+                self._lock.acquire()
+        return ok
+
+    def wait_for(self, predicate, timeout=None):
+        r = predicate()
+        while not r:
+            if not self.wait(timeout):
+                return predicate()
+            r = predicate()
+        return r
+
+    def notify(self, n=1):
+        for token in self._waiters[:n]:
+            self._waiters.remove(token)
+            token.set()
+
+    def notify_all(self):
+        self.notify(len(self._waiters))
+
+    notifyAll = notify_all
+
+
+_STDLIB_DIR = os.path.dirname(os.path.abspath(threading.__file__)) + os.sep
+
+
 def _from_pyecc(depth=2):
+    """was this synchronisation object asked for by py_ecc code?  Frames of the
+    standard library in between (threading.Event -> Condition -> Lock, queue.Queue
+    ...) are looked through."""
+    if not PYECC_DIR:
+        return False
     try:
         f = sys._getframe(depth)
     except ValueError:
         return False
-    return bool(PYECC_DIR) and f.f_code.co_filename.startswith(PYECC_DIR)
+    for _ in range(12):
+        if f is None:
+            return False
+        fn = f.f_code.co_filename
+        if fn.startswith(PYECC_DIR):
+            return True
+        if not fn.startswith(_STDLIB_DIR):
+            return False
+        f = f.f_back
+    return False
 
 
 def Lock():
@@ -95,6 +207,22 @@ def RLock(*a, **k):
     return _real_rlock(*a, **k)
 
 
+_real_event = threading.Event
+_real_condition = threading.Condition
+
+
+def Event():
+    if _from_pyecc():
+        return CoopEvent()
+    return _real_event()
+
+
+def Condition(lock=None):
+    if _from_pyecc():
+        return CoopCondition(lock)
+    return _real_condition(lock)
+
+
 def install():
     global _installed, PYECC_DIR
     if _installed:
@@ -107,3 +235,5 @@ def install():
         PYECC_DIR = None
     threading.Lock = Lock
     threading.RLock = RLock
+    threading.Event = Event
+    threading.Condition = Condition
